@@ -1,7 +1,7 @@
 (* SOUNDNESS of the comparer on named netlists: whatever Comparer(a, b).compare() accepts is
    structurally equivalent to a in the declarative sense of Cmp/Equiv.v - every wire carries the
-   same pins (in any order), and up to properties that only b has (the comparer's one hole inside
-   the named fragment; closed by the hypothesis no_extra_props, or by comparing both ways). *)
+   same pins (in any order), every instance the same properties (since the repair of
+   compare_instances: properties that only b has are seen too, no side condition is left). *)
 From Coq Require Import String List Arith NArith ZArith Bool Lia Permutation.
 From SV Require Import Base.Base Cmp.Comparer Cmp.Diff Cmp.Equiv
   Proofs.CmpBase Proofs.CmpPinSet Proofs.CmpAccept Proofs.CmpReject.
@@ -156,51 +156,87 @@ Proof.
   - intro H. right. apply IH. assumption.
 Qed.
 
-Lemma cmp_items_sound items oc : cmp_items items oc = Accept ->
-  forall k v, In (k, v) items ->
-  exists dc v', oc = Some dc /\ sassoc k dc = Some v' /\ pval_eqb v v' = true.
+Lemma cmp_items_sound items dc : cmp_items items dc = Accept ->
+  forall k v, In (k, v) items -> exists v', sassoc k dc = Some v' /\ pval_eqb v v' = true.
 Proof.
   induction items as [|[k0 v0] items IH]; cbn; intros Hc k v Hin; [contradiction|].
-  destruct oc as [dc|]; [|discriminate].
   destruct (sassoc k0 dc) as [v'|] eqn:Es; [|discriminate].
   apply seq_accept in Hc as [H1 H2]. apply check_accept in H1.
   destruct Hin as [Heq|Hin].
-  - inversion Heq; subst. exists dc, v'. auto.
+  - inversion Heq; subst. exists v'. auto.
   - apply IH; assumption.
 Qed.
 
-Lemma cmp_props_sound po : forall x pc, cmp_props x po pc = Accept ->
-  forall j d k v, nth_error po j = Some d -> sassoc k d = Some v ->
-  exists d' v', nth_error pc (x + j) = Some d' /\ sassoc k d' = Some v' /\ pval_eqb v v' = true.
+(* entry by entry: the same keys, and the values of the first equal those of the second *)
+Lemma cmp_props_sound po : forall pc, cmp_props po pc = Accept ->
+  forall j d, nth_error po j = Some d ->
+  exists d', nth_error pc j = Some d' /\ keys_eqb d d' = true /\ cmp_items d d' = Accept.
 Proof.
-  induction po as [|d0 po IH]; intros x pc Hc j d k v Hj Hs; [destruct j; discriminate|].
-  cbn [cmp_props] in Hc. apply seq_accept in Hc as [H1 H2].
+  induction po as [|d0 po IH]; intros pc Hc j d Hj; [destruct j; discriminate|].
+  destruct pc as [|c pc]; [discriminate|].
+  cbn [cmp_props] in Hc. apply seq_accept in Hc as [H1 H2]. apply seq_accept in H2 as [H2 H3].
+  apply check_accept in H1.
   destruct j as [|j]; cbn in Hj.
-  - inversion Hj; subst d0.
-    destruct (cmp_items_sound _ _ H1 k v (sassoc_in _ _ _ Hs)) as [dc [v' [Hn [Hs' He]]]].
-    exists dc, v'. rewrite Nat.add_0_r. auto.
-  - destruct (IH (S x) pc H2 j d k v Hj Hs) as [d' [v' H]].
-    exists d', v'. replace (x + S j) with (S x + j) by lia. assumption.
+  - inversion Hj; subst d0. exists c. auto.
+  - cbn. apply (IH pc H3 j d Hj).
 Qed.
 
-Lemma cmp_inst_sound o c : cmp_inst (Some o) (Some c) = Accept -> inst_rel props_sub o c.
+Lemma has_key_sassoc {k d} : has_key k d = true -> exists v, sassoc k d = Some v.
+Proof. unfold has_key. destruct (sassoc k d) as [v|]; [eauto|discriminate]. Qed.
+
+Lemma pval_eqb_sym a b : pval_eqb a b = true -> pval_eqb b a = true.
+Proof.
+  destruct a as [x|x|x|], b as [y|y|y|]; cbn; try discriminate; try tauto.
+  - intro H. apply str_eqb_spec in H. subst. apply str_eqb_refl.
+  - intro H. apply Z.eqb_eq in H. subst. apply Z.eqb_refl.
+  - destruct x, y; tauto.
+Qed.
+
+Lemma nth_error_same_length {A} (l l' : list A) j x :
+  length l = length l' -> nth_error l' j = Some x -> exists y, nth_error l j = Some y.
+Proof.
+  intros Hl Hn. destruct (nth_error l j) as [y|] eqn:E; [eauto|].
+  apply nth_error_None in E. assert (j < length l') by (apply nth_error_Some; congruence). lia.
+Qed.
+
+Lemma cmp_props_eq po pc : length po = length pc -> cmp_props po pc = Accept ->
+  props_eq (Some po) (Some pc).
+Proof.
+  intros Hl Hc. split; [cbn; congruence|]. split; (split; [intros _; discriminate|]); intros x k v Hp; cbn in Hp |- *.
+  - destruct (nth_error po x) as [d|] eqn:Ed; [|discriminate].
+    destruct (cmp_props_sound po pc Hc x d Ed) as [d' [Hn [_ Hi]]]. rewrite Hn.
+    apply (cmp_items_sound _ _ Hi k v). apply sassoc_in. assumption.
+  - destruct (nth_error pc x) as [d'|] eqn:Ed'; [|discriminate].
+    destruct (nth_error_same_length po pc x d' Hl Ed') as [d Ed]. rewrite Ed.
+    destruct (cmp_props_sound po pc Hc x d Ed) as [d'' [Hn [Hk Hi]]].
+    assert (d'' = d') by congruence. subst d''.
+    unfold keys_eqb in Hk. apply andb_true_iff in Hk as [_ Hk]. rewrite forallb_forall in Hk.
+    specialize (Hk (k, v) (sassoc_in _ _ _ Hp)). cbn in Hk.
+    destruct (has_key_sassoc Hk) as [v0 Hv0]. exists v0. split; [assumption|].
+    destruct (cmp_items_sound _ _ Hi k v0 (sassoc_in _ _ _ Hv0)) as [v1 [Hv1 He]].
+    assert (v1 = v) by congruence. subst v1. apply pval_eqb_sym. assumption.
+Qed.
+
+Lemma props_eq_none : props_eq None None.
+Proof.
+  split; [reflexivity|]. split; (split; [tauto|]); intros x k v H; discriminate H.
+Qed.
+
+Lemma cmp_inst_sound o c : cmp_inst (Some o) (Some c) = Accept -> inst_rel props_eq o c.
 Proof.
   unfold cmp_inst. cbn [oi_name oi_oid]. intro H.
   apply seq_accept in H as [H1 H]. apply seq_accept in H as [H2 H].
   apply seq_accept in H as [H3 H4].
   apply check_accept in H1, H2. apply oname_eqb_spec in H1, H2. apply cmp_ref_sound in H3.
   split; [assumption|]. split; [assumption|]. split; [assumption|].
-  destruct (i_props o) as [po|]; [|split; [congruence|cbn; discriminate]].
-  destruct (i_props c) as [pc|]; [|discriminate].
-  split; [discriminate|]. intros x k v Hp. cbn in Hp.
-  destruct (nth_error po x) as [d|] eqn:Ed; [|discriminate].
-  destruct (cmp_props_sound po 0 pc H4 x d k v Ed Hp) as [d' [v' [Hn [Hs He]]]].
-  exists v'. cbn in Hn. cbn. rewrite Hn. auto.
+  destruct (i_props o) as [po|], (i_props c) as [pc|]; try discriminate; [|apply props_eq_none].
+  apply seq_accept in H4 as [H4 H5]. apply check_accept in H4. apply Nat.eqb_eq in H4.
+  apply cmp_props_eq; assumption.
 Qed.
 
 Lemma cmp_top_sound ta tb :
   match ta, tb with None, None => Accept | _, _ => cmp_inst ta tb end = Accept ->
-  top_rel props_sub ta tb.
+  top_rel props_eq ta tb.
 Proof.
   destruct ta as [i|], tb as [j|]; intro H; cbn.
   - apply cmp_inst_sound. assumption.
@@ -216,7 +252,7 @@ Lemma no_skip_false {A} (l : list A) : forall x, In x l -> no_skip x = false.
 Proof. reflexivity. Qed.
 
 Lemma cmp_def_sound lo lc o c : wf_def o = true -> no_asg_def o = true ->
-  cmp_def lo lc o c = Accept -> defn_rel props_sub wire_perm o c.
+  cmp_def lo lc o c = Accept -> defn_rel props_eq wire_perm o c.
 Proof.
   intros Hwf Hna H. apply wf_def_unpack in Hwf. apply not_asg_of in Hna.
   unfold cmp_def in H. cbv zeta in H.
@@ -237,7 +273,7 @@ Proof.
 Qed.
 
 Lemma cmp_lib_sound o c : wf_lib o = true -> forallb no_asg_def (l_defs o) = true ->
-  cmp_lib o c = Accept -> lib_rel props_sub wire_perm o c.
+  cmp_lib o c = Accept -> lib_rel props_eq wire_perm o c.
 Proof.
   unfold wf_lib. intros Hwf Hna H. apply andb_true_iff in Hwf as [Hn Hw].
   rewrite forallb_forall in Hw, Hna.
@@ -249,9 +285,9 @@ Proof.
   intros x y Hx _ _ Hf. eapply cmp_def_sound; [apply Hw; assumption|apply Hna; assumption|exact Hf].
 Qed.
 
-(* SOUNDNESS, unconditional form: an accepted b is a up to sibling order and up to properties
-   that only b has.  Nothing is assumed about b. *)
-Theorem cmp_run_sound a b : wf_named a -> no_asg a -> cmp_run a b = Accept -> nv_covered_set a b.
+(* SOUNDNESS: an accepted b is a up to the order of siblings and of the pins of wires: no
+   structural difference is ever accepted.  Nothing is assumed about b. *)
+Theorem cmp_run_sound a b : wf_named a -> no_asg a -> cmp_run a b = Accept -> nv_equiv a b.
 Proof.
   unfold wf_named, wf_namedb, no_asg, no_asgb. intros Hwf Hna H.
   apply andb_true_iff in Hwf as [Hwf Hw]. apply andb_true_iff in Hwf as [_ Hn].
@@ -265,27 +301,34 @@ Proof.
   intros x y Hx _ _ Hf. eapply cmp_lib_sound; [apply Hw; assumption|apply Hna; assumption|exact Hf].
 Qed.
 
-Theorem compare_sound_covered a b : wf_named a -> no_asg a -> compare a b = true -> nv_covered_set a b.
+Theorem compare_sound a b : wf_named a -> no_asg a -> compare a b = true -> nv_equiv a b.
 Proof. intros Hwf Hna H. apply compare_accept in H. apply cmp_run_sound; assumption. Qed.
 
-(* ---------- from "covered" to "equivalent" ---------- *)
-Theorem covered_equiv_gen WR a b : nv_rel props_sub WR a b -> no_extra_props a b -> nv_rel props_eq WR a b.
+(* ---------- equivalent (same properties both ways) is a special case of covered ---------- *)
+Theorem equiv_covered_gen WR a b : nv_rel props_eq WR a b -> nv_rel props_sub WR a b.
 Proof.
-  intros [H1 [H2 [H3 H4]]] [Et El].
-  split; [assumption|]. split; [assumption|]. split.
-  - destruct (n_top a) as [ta|] eqn:Ea, (n_top b) as [tb|] eqn:Eb; cbn in *; try assumption.
-    destruct H3 as [G1 [G2 [G3 G4]]]. split; [assumption|]. split; [assumption|]. split; [assumption|].
-    split; [assumption|apply (Et ta tb); reflexivity].
+  intros [H1 [H2 [H3 H4]]]. split; [assumption|]. split; [assumption|]. split.
+  - destruct (n_top a), (n_top b); cbn in *; try assumption.
+    destruct H3 as [G1 [G2 [G3 [_ [G4 _]]]]]. split; [assumption|]. split; [assumption|]. split; assumption.
   - eapply sib_equiv_impl_in; [|exact H4]. cbn.
-    intros la lb Hla Hlb [L1 [L2 L3]]. split; [assumption|]. split; [assumption|].
+    intros la lb _ _ [L1 [L2 L3]]. split; [assumption|]. split; [assumption|].
     eapply sib_equiv_impl_in; [|exact L3]. cbn.
-    intros da db Hda Hdb [D1 [D2 [D3 [D4 D5]]]].
+    intros da db _ _ [D1 [D2 [D3 [D4 D5]]]].
     split; [assumption|]. split; [assumption|]. split; [assumption|]. split; [assumption|].
     eapply sib_equiv_impl_in; [|exact D5]. cbn.
-    intros ia ib Hia Hib [I1 [I2 [I3 I4]]].
-    split; [assumption|]. split; [assumption|]. split; [assumption|]. split; [assumption|].
-    apply (El la lb da db ia ib); assumption.
+    intros ia ib _ _ [I1 [I2 [I3 [_ [I4 _]]]]]. split; [assumption|]. split; [assumption|]. split; assumption.
 Qed.
+
+Theorem equiv_ord_covered a b : nv_equiv_ord a b -> nv_covered a b.
+Proof. apply equiv_covered_gen. Qed.
+
+Theorem equiv_covered_set a b : nv_equiv a b -> nv_covered_set a b.
+Proof. apply equiv_covered_gen. Qed.
+
+(* the weaker form that held before the repair of compare_instances (properties that only b has
+   were not seen): a corollary now *)
+Theorem compare_sound_covered a b : wf_named a -> no_asg a -> compare a b = true -> nv_covered_set a b.
+Proof. intros Hwf Hna H. apply equiv_covered_set. apply compare_sound; assumption. Qed.
 
 Lemma Forall2_eq_perm (l l' : list wire) : Forall2 eq l l' -> Forall2 wire_perm l l'.
 Proof. induction 1; constructor; [subst; apply Permutation_refl|assumption]. Qed.
@@ -308,17 +351,3 @@ Proof. apply rel_ord_set. Qed.
 
 Theorem covered_ord_set a b : nv_covered a b -> nv_covered_set a b.
 Proof. apply rel_ord_set. Qed.
-
-Theorem covered_equiv_ord a b : nv_covered a b -> no_extra_props a b -> nv_equiv_ord a b.
-Proof. apply covered_equiv_gen. Qed.
-
-Theorem covered_equiv_set a b : nv_covered_set a b -> no_extra_props a b -> nv_equiv a b.
-Proof. apply covered_equiv_gen. Qed.
-
-(* SOUNDNESS: no structural difference is ever accepted *)
-Theorem compare_sound a b : wf_named a -> no_asg a -> no_extra_props a b ->
-  compare a b = true -> nv_equiv a b.
-Proof.
-  intros Hwf Hna Hex H. apply covered_equiv_set; [|assumption].
-  apply compare_sound_covered; assumption.
-Qed.
